@@ -222,7 +222,9 @@ class GridSpec:
         bbox = geopolygon.boundingbox
 
         for tile_index, tile_geobox in self.tiles(bbox, geobox_cache):
-            if not geopolygon.disjoint(tile_geobox.extent):
+            ext = tile_geobox.extent
+            # touching along an edge or at a corner is not an overlap, same as in .tiles(bbox)
+            if geopolygon.intersects(ext) and not geopolygon.touches(ext):
                 yield (tile_index, tile_geobox)
 
     def __str__(self) -> str:
